@@ -311,7 +311,31 @@ def moved_polygon_stream(ctx, n):
             ctx.disagree("C09:dist:moved-polygon", desc, hq, r[1:3], replay=[desc])
 
 
+def polygon2d_stream(ctx, n):
+    """dist(point, polygon of the plane) and the other order: Euclidean distance to the closed region — 0 exactly for the points
+    the polygon contains (interior and boundary), otherwise the distance to the nearest edge"""
+    import geometer as g
+    rng = ctx.rng
+    for k in range(n):
+        x0, y0, w, h = rng.randint(-3, 3), rng.randint(-3, 3), rng.randint(1, 4), rng.randint(1, 4)
+        vs = [(x0, y0), (x0 + w, y0), (x0 + w, y0 + h), (x0, y0 + h)]
+        if k % 2:
+            vs = vs[::-1]
+        poly = g.Polygon(*[g.Point(float(a), float(b)) for a, b in vs])
+        px, py = rng.choice([x0 - 2, x0, x0 + w / 2, x0 + w, x0 + w + 3]), rng.choice([y0 - 1, y0, y0 + h / 2, y0 + h, y0 + h + 2])
+        dx, dy = max(x0 - px, 0, px - (x0 + w)), max(y0 - py, 0, py - (y0 + h))
+        exp = float(np.hypot(dx, dy))
+        P = g.Point(float(px), float(py))
+        desc = f"dist point ({px},{py}) – rectangle {vs} of the plane"
+        ctx.case(desc)
+        ctx.count("dist:polygon2d:" + ("incident" if exp == 0 else "outside"))
+        r = call_impl(lambda: (float(g.dist(P, poly)), float(g.dist(poly, P)), bool(poly.contains(P))))
+        if r[0] != "ok" or not (abs(r[1][0] - exp) <= 1e-9 and abs(r[1][1] - exp) <= 1e-9 and r[1][2] == (exp == 0)):
+            ctx.disagree("C09:dist:polygon2d:" + ("incident" if exp == 0 else "outside"), desc, (exp, exp, exp == 0), r[1:3], replay=[desc])
+
+
 def correspondence(ctx):
+    polygon2d_stream(ctx, ctx.budget(60, 600))
     origin_lines(ctx, ctx.budget(30, 300))
     moved_polygon_stream(ctx, ctx.budget(30, 300))
     dist_stream(ctx, ctx.budget(600, 9000))
